@@ -331,8 +331,24 @@ func init() {
 			u.trusted["model: "+f+" is an uninterpreted function of its argument"] = true
 			a := u.eval(st, x.Args[0])
 			uf := u.d.fun("fn!"+f, []string{SStr}, SStr)
+			if f != "strings.TrimSpace" {
+				// case mapping of ASCII/most text keeps emptiness: "" iff ""
+				st.assumeFact(tEq(tEq(app(uf, a.S), `""`), tEq(a.S, `""`)))
+			}
 			return &Val{T: types.Typ[types.String], S: app(uf, a.S)}
 		}
+	}
+	models["strings.ReplaceAll"] = func(u *Unit, st *State, x *ast.CallExpr, _ *Val, fn *types.Func) *Val {
+		u.trusted["model: strings.ReplaceAll is an uninterpreted function; it preserves the length when old and new have equal length"] = true
+		a, o, n := u.eval(st, x.Args[0]), u.eval(st, x.Args[1]), u.eval(st, x.Args[2])
+		f := u.d.fun("pure!strings.ReplaceAll!0", []string{SStr, SStr, SStr}, SStr)
+		r := app(f, a.S, o.S, n.S)
+		if lo, ok := unquoteSMT(o.S); ok {
+			if ln, ok2 := unquoteSMT(n.S); ok2 && len(lo) == len(ln) {
+				st.assumeFact(tEq(app("str.len", r), app("str.len", a.S)))
+			}
+		}
+		return &Val{T: types.Typ[types.String], S: r}
 	}
 	models["strings.EqualFold"] = func(u *Unit, st *State, x *ast.CallExpr, _ *Val, fn *types.Func) *Val {
 		u.trusted["model: strings.EqualFold(a,b) == (fold(a) == fold(b)) for an uninterpreted fold"] = true
